@@ -4,6 +4,7 @@ From MD Require Import Proofs.IpProofs Proofs.UrlSplitProofs Proofs.NetworkProof
 From MD Require Import Regex.LocalityProofs Generated.Regexes.
 From MD Require Import Proofs.RoundTrip Proofs.RoundTrip3.
 From MD Require Import Regex.LocalityProofs Proofs.RoundTrip Proofs.RoundTrip2 Proofs.RoundTrip3 Proofs.RoundTrip4 Proofs.RoundTrip5 Proofs.RoundTrip6.
+From MD Require Import Proofs.RoundTrip7.
 
 (* every canonical dotted quad is an instance ... *)
 Theorem C11_quad_accepted : forall s : bytes, canonical_quad s = true <-> (exists a b c d : Z, 0 <= a < 256 /\ 0 <= b < 256 /\ 0 <= c < 256 /\ 0 <= d < 256 /\ s = quad a b c d).
@@ -175,6 +176,11 @@ Print Assumptions C11_url_query_fragment_found.
 Theorem C11_windows_path_found : forall (is_domain : bytes -> bool) (pre : list N) (d : N) (segs : list bytes) (base ext suf : bytes), is_alpha_ascii d = true -> wsegs_ok segs = true -> wfile_ok base ext = true -> wpath_stop suf = true -> let form := wpath_form d segs (wfile base ext) in neutral RE_path_WINDOWS_PATH_RE pre = true -> (2 * Datatypes.length form + 100 <= default_fuel)%nat -> let data := pre ++ form ++ suf in find_windows_path is_domain data = Hang \/ (exists rest : list node, find_windows_path is_domain data = Ok (Node WINDOWS_PATH_TYPE form [] (blen pre) (blen pre + blen form) (wpath_kids form base ext) :: rest) /\ Forall (fun nd : node => blen pre + blen form <= n_st nd) rest).
 Proof. exact find_windows_path_roundtrip_drive. Qed.
 Print Assumptions C11_windows_path_found.
+
+(* embedded PE file: for a blob with a well-formed DOS / PE header (the model's own checks) whose size the pefile oracle reports as its length, after a prefix without MZ: one pe_file node spanning exactly the blob (the only hypothesis about the oracle is that equation) *)
+Theorem C11_pe_found : forall (pe_size : bytes -> Z) (pre blob : bytes) (suf : list N), pe_header_ok blob = true -> pe_size (blob ++ suf) = blen blob -> no_mz pre = true -> let data := pre ++ blob ++ suf in find_pe_files pe_size data = Hang \/ (exists rest : list node, find_pe_files pe_size data = Ok (Node PE_TYPE blob [] (blen pre) (blen pre + blen blob) [] :: rest) /\ Forall (fun nd : node => blen pre + 2 <= n_st nd) rest).
+Proof. exact find_pe_files_roundtrip. Qed.
+Print Assumptions C11_pe_found.
 
 Example C11_example :
   find_ips (L"zz 10.20.30.40 zz") = Ok [Node (L"network.ip") (L"10.20.30.40") [] 3 14 []]
